@@ -92,3 +92,24 @@ package htmldoc
 //@   atreturn#1 only_a_block_level_child_makes_a_container: c.Type == html.ElementNode && blockTag(c.Data)
 //@   loop 0:
 //@     step a_block_level_child_ends_the_search: !isnil(prev(c)) ==> !(prev(c).Type == html.ElementNode && blockTag(prev(c).Data))
+
+// ---- C19/C15: the Markdown table writes every cell of every row, in place; `cells` counts the escapeMarkdown calls ----
+//@ spec rec prefix func htmlcellcount(rows [][]TableCell, n int) int = n <= 0 ? 0 : htmlcellcount(rows, n - 1) + len(rows[n-1])
+//@ func (*ParsedTable) ToMarkdown results (res)
+//@   property C19, C15
+//@   flags nosafety
+//@   count cells: escapeMarkdown(s) when true
+//@   callsite escapeMarkdown#1(s) requires first_row_cell_in_place: s == t.Rows[0][$i].Text
+//@   callsite escapeMarkdown#2(s) requires data_cell_in_place: s == t.Rows[i][$i].Text
+// KNOWN FINDING (see known_findings.json): a table without a header row writes its first row twice
+//@   ensures every_cell_written_once: len(t.Rows) > 0 ==> cells == htmlcellcount(t.Rows, len(t.Rows))
+//@   ensures every_cell_written_at_least_once: len(t.Rows) > 0 ==> cells >= htmlcellcount(t.Rows, len(t.Rows))
+//@   loop 0:
+//@     invariant cells == $i
+//@   loop 1:
+//@     invariant cells == len(t.Rows[0])
+//@   loop 2:
+//@     invariant startRow <= i && i <= len(t.Rows) && 0 <= startRow && startRow <= 1 && cells == len(t.Rows[0]) + htmlcellcount(t.Rows, i) - htmlcellcount(t.Rows, startRow)
+//@     decreases len(t.Rows) - i
+//@   loop 3:
+//@     invariant startRow <= i && i < len(t.Rows) && cells == len(t.Rows[0]) + htmlcellcount(t.Rows, i) - htmlcellcount(t.Rows, startRow) + $i
